@@ -21,7 +21,7 @@ def short(k):
 
 
 class Audit:
-    def __init__(self, facts, cgens=None, tgens=None, max_paths=60000):
+    def __init__(self, facts, cgens=None, tgens=None, max_paths=200000):
         self.f = facts
         self.cgens = cgens or {}
         self.tgens = tgens or {}
